@@ -8,7 +8,9 @@ of the `VERSION` named tuple), so that the triple `(a.1, a.2.1, a.2.2)` is *by c
 `VERSION(design, impl, bugfix)` of the object.
 
 Subset understood (anything else raises Untranslatable):
-  expressions  comparisons (== != < <= > >=, chains) between integer terms; `and`/`or`/`not`;
+  expressions  comparisons (== != < <= > >=, chains) between integer terms; one comparison between
+               whole version tuples (`p._get_ver()`, a VERSION parameter, a literal 3-tuple), which
+               Python evaluates lexicographically; `and`/`or`/`not`;
                `all([...])`, `any([...])` over a literal list/tuple; `True`/`False`;
                `x if c else y`; `self.__op__(other)` calls to another translated operator;
                integer terms: `p.design()`, `p.implementation()`, `p.bugfix()` for a parameter
@@ -161,9 +163,45 @@ def int_term(cx, e):
     return None
 
 
+def tuple_term(cx, e):
+    """the whole VERSION tuple of a parameter: `p._get_ver()` for a Version object, the bare name
+    for a parameter annotated VERSION, or a literal 3-tuple of integer terms -> three Lean terms"""
+    if (
+        isinstance(e, ast.Call)
+        and not e.args
+        and not e.keywords
+        and isinstance(e.func, ast.Attribute)
+        and e.func.attr == '_get_ver'
+        and isinstance(e.func.value, ast.Name)
+        and cx.params.get(e.func.value.id, (None, None))[1] == 'object'
+    ):
+        return [cx.params[e.func.value.id][0] + p for p in PROJ]
+    if isinstance(e, ast.Name) and cx.params.get(e.id, (None, None))[1] == 'tuple':
+        return [cx.params[e.id][0] + p for p in PROJ]
+    if isinstance(e, ast.Tuple) and len(e.elts) == 3 and not any(isinstance(x, ast.Starred) for x in e.elts):
+        return [int_term(cx, x) for x in e.elts]
+    return None
+
+
+def tuple_compare(op, x, y):
+    """Python compares (named) tuples lexicographically"""
+    eq = ' && '.join(f'decide ({a} = {b})' for a, b in zip(x, y))
+
+    def lex(strict, last):
+        return (f'(decide ({x[0]} {strict} {y[0]}) || (decide ({x[0]} = {y[0]}) && '
+                f'(decide ({x[1]} {strict} {y[1]}) || (decide ({x[1]} = {y[1]}) && decide ({x[2]} {last} {y[2]})))))')
+
+    return {ast.Eq: f'({eq})', ast.NotEq: f'(!({eq}))', ast.Lt: lex('<', '<'), ast.LtE: lex('<', '≤'),
+            ast.Gt: lex('>', '>'), ast.GtE: lex('>', '≥')}[op]
+
+
 def bool_expr(cx, e):
     if isinstance(e, ast.Constant) and isinstance(e.value, bool):
         return 'true' if e.value else 'false'
+    if isinstance(e, ast.Compare) and len(e.ops) == 1 and type(e.ops[0]) in CMP:
+        x, y = tuple_term(cx, e.left), tuple_term(cx, e.comparators[0])
+        if x is not None and y is not None:
+            return tuple_compare(type(e.ops[0]), x, y)
     if isinstance(e, ast.Compare):
         terms = [int_term(cx, x) for x in [e.left] + list(e.comparators)]
         parts = []
@@ -315,27 +353,66 @@ def gen_build_table(repo):
     if len(params) != 3:
         _fail('schedule.build', fn, 'expected (factories, latest, previous)')
     _fac, latest, previous = params
-    pairs = []
+    def diff_pair(call):
+        idx = []
+        ok = len(call.args) == 2 and not call.keywords
+        for arg, nm in zip(call.args, (latest, previous)):
+            if not (
+                ok
+                and isinstance(arg, ast.Subscript)
+                and isinstance(arg.value, ast.Name)
+                and arg.value.id == nm
+                and isinstance(arg.slice, ast.Constant)
+                and type(arg.slice.value) is int  # pylint: disable=unidiomatic-typecheck
+                and arg.slice.value >= 0
+            ):
+                _fail('schedule.build', call, f'expected _diff({latest}[i], {previous}[j])')
+            idx.append(arg.slice.value)
+        return tuple(idx)
+
+    def is_diff(n):
+        return isinstance(n, ast.Call) and isinstance(n.func, ast.Name) and n.func.id == '_diff'
+
+    # locals assigned (once) from a _diff call
+    assigned, calls = {}, 0
     for n in ast.walk(fn):
-        if isinstance(n, ast.Call) and isinstance(n.func, ast.Name) and n.func.id == '_diff':
-            ok = len(n.args) == 2 and not n.keywords
-            idx = []
-            for arg, nm in zip(n.args, (latest, previous)):
-                if not (
-                    ok
-                    and isinstance(arg, ast.Subscript)
-                    and isinstance(arg.value, ast.Name)
-                    and arg.value.id == nm
-                    and isinstance(arg.slice, ast.Constant)
-                    and type(arg.slice.value) is int  # pylint: disable=unidiomatic-typecheck
-                    and arg.slice.value >= 0
-                ):
-                    _fail('schedule.build', n, f'expected _diff({latest}[i], {previous}[j])')
-                idx.append(arg.slice.value)
-            pairs.append((n.lineno, n.col_offset, idx[0], idx[1]))
-    pairs = [(c, p) for _l, _c, c, p in sorted(pairs)]
+        if is_diff(n):
+            calls += 1
+        if isinstance(n, ast.Assign) and is_diff(n.value):
+            if len(n.targets) != 1 or not isinstance(n.targets[0], ast.Name) or n.targets[0].id in assigned:
+                _fail('schedule.build', n, 'expected a single assignment <name> = _diff(...)')
+            assigned[n.targets[0].id] = diff_pair(n.value)
+    for n in ast.walk(fn):
+        if isinstance(n, (ast.Assign, ast.AugAssign, ast.For, ast.NamedExpr)):
+            tg = n.targets if isinstance(n, ast.Assign) else [n.target]
+            for t in tg:
+                for x in ast.walk(t):
+                    if isinstance(x, ast.Name) and x.id in assigned and not (isinstance(n, ast.Assign) and is_diff(n.value)):
+                        _fail('schedule.build', n, 'a _diff result is reassigned')
+    # the one comprehension that turns the differences into owner names: its iterable is a
+    # `+` chain of those locals (or of direct _diff calls); the order of the operands and of the
+    # assignments is irrelevant (the result is a set), so the pairs are emitted sorted
+    chains = [n for n in ast.walk(fn) if isinstance(n, (ast.SetComp, ast.ListComp, ast.GeneratorExp))
+              and any(isinstance(x, ast.Attribute) and x.attr == 'split' for x in ast.walk(n.elt))]
+    if len(chains) != 1 or len(chains[0].generators) != 1 or chains[0].generators[0].ifs:
+        raise Untranslatable('schedule.build: expected exactly one unconditional comprehension over the differences')
+
+    def operands(e):
+        if isinstance(e, ast.BinOp) and isinstance(e.op, ast.Add):
+            return operands(e.left) + operands(e.right)
+        return [e]
+
+    pairs = []
+    for e in operands(chains[0].generators[0].iter):
+        if isinstance(e, ast.Name) and e.id in assigned:
+            pairs.append(assigned[e.id])
+        elif is_diff(e):
+            pairs.append(diff_pair(e))
+        else:
+            _fail('schedule.build', e, 'operand of the difference chain is not a _diff result')
     if not pairs:
         raise Untranslatable('schedule.build: no _diff call found')
+    pairs = sorted(set(pairs))
     # owner prefix: '.'.join(item.split('.')[:n])
     lens = set()
     for n in ast.walk(fn):
@@ -395,7 +472,7 @@ def gen_build_table(repo):
     text = (
         '/- constants of schedule.build / schedule._is_asp -/\n'
         'namespace DawgieVerif.Generated.BuildTable\n'
-        '/-- `_diff(latest[i], previous[j])` calls of `build`, in source order -/\n'
+        '/-- the `_diff(latest[i], previous[j])` results that `build` turns into owner names (sorted) -/\n'
         f'def diffTables : List (Nat × Nat) := [{", ".join(f"({c}, {p})" for c, p in pairs)}]\n'
         "/-- `'.'.join(item.split('.')[:ownerLen])` -/\n"
         f'def ownerLen : Nat := {lens.pop()}\n'
